@@ -1,6 +1,7 @@
 package main
 
 import (
+	"runtime/debug"
 	"encoding/json"
 	"flag"
 	"fmt"
@@ -329,6 +330,9 @@ func runHarness(pkgDir, harness string, loopBound, nval int, seed int64, maxPath
 	defer func() {
 		if r := recover(); r != nil {
 			res.Error = fmt.Sprint(r)
+			if os.Getenv("GOSYM_STACK") != "" {
+				res.Error += "\n" + string(debug.Stack())
+			}
 			if len(res.Error) > 4000 {
 				res.Error = res.Error[:4000]
 			}
